@@ -276,7 +276,9 @@ def run_scenarios(scens, patches_cm, timeout_ms=10000, max_paths=4000, wall_s=12
            'findings': [], 'inconclusive': [], 'samples': [], 'canaries': 0, 'canaries_fired': 0}
     stats = core.Stats()
     rnd = random.Random(seed)
+    import os
     for scen in scens:
+        _t0 = time.time()
         out['shapes'] += 1
         run = scen.compile()
         eng = Engine(timeout_ms=timeout_ms, max_paths=max_paths, wall_s=wall_s, div_zero=div_zero)
@@ -369,6 +371,8 @@ def run_scenarios(scens, patches_cm, timeout_ms=10000, max_paths=4000, wall_s=12
                 if bad:
                     out['inconclusive'].append(
                         f"{scen.key}: translator validation failed: solver proved the claims but concrete run {vals} violates {bad}")
+        if os.environ.get('VERIF_TIMING'):
+            print(f'TIMING {time.time() - _t0:7.2f}s {scen.key}', flush=True)
         if len(out['samples']) < 3:
             out['samples'].append({'scenario': scen.key, 'inputs': scen.inputs, 'pre': scen.pre,
                                    'consts': {k: repr(v)[:60] for k, v in scen.consts.items()}})
